@@ -164,7 +164,15 @@ impl Search {
             self.log_uci_info(depth, Some(start.elapsed().as_millis()), &pv);
         }
 
-        self.log(format!("bestmove {}", self.info.best_move.unwrap()).as_str());
+        // If not even the first iteration completed, fall back to any legal move
+        let best_move = self
+            .info
+            .best_move
+            .or_else(|| self.original_board.get_legal_moves().first().copied());
+        match best_move {
+            Some(ply) => self.log(format!("bestmove {ply}").as_str()),
+            None => self.log("bestmove 0000"),
+        }
     }
 
     /// Initializes the alpha-beta search and returns the best move found
